@@ -426,6 +426,18 @@ impl Printable for ArgsDesc {
 			})
 		};
 
+		if children.is_empty() {
+			// Only comments (if anything) between the parentheses
+			p!(out, str("("));
+			if !end_comments.trivia.is_empty() {
+				p!(out, >i nl);
+				format_comments(&end_comments.trivia, CommentLocation::EndOfItems, out);
+				p!(out, <i);
+			}
+			p!(out, str(")"));
+			return;
+		}
+
 		let args_items = new_line_group(gen_args(children, multi_line.clone())).into_rc_path();
 		let args_indented = with_indent(pi!(@i; nl items(args_items.into())));
 
